@@ -113,9 +113,6 @@ class TcpConnection():
             self.tracking_events_count += TRACKING_SOCKET_EVENTS_TIMEOUT
 
             for key, mask in self.events:
-                if key.data is not None:
-                    self.data_stream += key.data
-
                 if mask & selectors.EVENT_WRITE:
                     tcp_connection.debug(f"Selector notified EVENT_WRITE")
                     self.write()
@@ -127,7 +124,19 @@ class TcpConnection():
 
     def _set_selector_events_mask(self, mode: Literal["r", "w", "rw"], msg: Any = None) -> None:
         self.lock.acquire()
-        if mode == "r":
+
+        #: Data to be sent is queued here, exactly once, under the lock. It
+        #: used to travel as the selector key's data, which the event loop
+        #: re-read on every wake-up (duplicating it after a partial write) and
+        #: which a concurrent switch back to READ silently discarded.
+        if msg and mode in ("w", "rw"):
+            self.data_stream += msg
+
+        if mode == "r" and (self.data_stream or self._send_buffer):
+            tcp_connection.debug(f"[Socket-{self.sock_id}] Keeping WRITE "\
+                                 f"interest: there is data still to be sent")
+
+        elif mode == "r":
             tcp_connection.debug(f"[Socket-{self.sock_id}] Updating "\
                                  f"selector events mask [READ]")
 
@@ -141,7 +150,7 @@ class TcpConnection():
                                  f"selector events mask [WRITE]")
 
             self.events_mask = selectors.EVENT_WRITE
-            self.selector.modify(self.sock, self.events_mask, data=msg)
+            self.selector.modify(self.sock, self.events_mask)
             self.write_mode_on.set()
             self.read_mode_on.clear()
 
@@ -151,7 +160,7 @@ class TcpConnection():
                                  f"selector events mask [READ/WRITE]")
 
             self.events_mask = selectors.EVENT_READ | selectors.EVENT_WRITE
-            self.selector.modify(self.sock, self.events_mask, data=msg)
+            self.selector.modify(self.sock, self.events_mask)
             self.write_mode_on.set()
             self.read_mode_on.set()
 
@@ -183,8 +192,11 @@ class TcpConnection():
 
     def write(self) -> None:
         if not self.send_data_stream_queued and self.data_stream:
+            self.lock.acquire()
             self._send_buffer += self.data_stream
             self.data_stream = b""
+            self.lock.release()
+
             self.send_data_stream_queued = True
             tcp_connection.debug(f"[Socket-{self.sock_id}] Stream data has "\
                                  f"been queued into _send_buffer: "\
